@@ -187,6 +187,83 @@ theorem scope_respected_positional (vt : VT) (sc : Scope) (items : List KV) (i :
     (items.map (valueItem vt sc))[i]? = some (.one kv) := by
   simp [hi, valueItem_out vt sc kv hout]
 
+/-! ## 2b. Condition groups: linking (`field_name_cond_op`) and negation (`field_name_cond_not`) -/
+
+/-- **One condition, no negation:** the group is the condition itself, whatever the linking - on field names and on
+detection items. -/
+theorem group_single (anyOf : Bool) (c : FScope) :
+    groupFields anyOf false [c] = c ∧ groupItems anyOf false [c] = fieldScope c := by
+  constructor
+  · funext f; cases anyOf <;> simp [groupFields, groupResult, linkBools]
+  · funext k vs; cases anyOf <;> simp [groupItems, groupResult, linkBools]
+
+/-- **A group without conditions always applies**, whatever its negation flag says (a `*_cond_not` option next to no
+condition of that kind is without effect). -/
+theorem group_empty (anyOf neg : Bool) :
+    groupFields anyOf neg [] = everything ∧ ∀ k vs, groupItems anyOf neg [] k vs = true :=
+  ⟨rfl, fun _ _ => rfl⟩
+
+/-- **Negation flag:** on a non-empty group it inverts the linked result, on every field name and on every item. -/
+theorem group_negation (anyOf : Bool) (cs : List FScope) (h : cs ≠ []) :
+    (∀ f, groupFields anyOf true cs f = !groupFields anyOf false cs f) ∧
+    (∀ k vs, groupItems anyOf true cs k vs = !groupItems anyOf false cs k vs) := by
+  have hne : ∀ {β : Type} (g : FScope → β), (cs.map g).isEmpty = false := by
+    intro β g; cases cs with
+    | nil => exact absurd rfl h
+    | cons _ _ => rfl
+  constructor
+  · intro f; simp [groupFields, groupResult, hne]
+  · intro k vs; simp [groupItems, groupResult, hne]
+
+/-- … in particular a negated `include_fields` is `exclude_fields` of the same list and the other way round. -/
+theorem group_not_include_exclude (anyOf : Bool) (fs : List Str) :
+    groupFields anyOf true [includeFields fs] = excludeFields fs ∧
+    groupFields anyOf true [excludeFields fs] = includeFields fs := by
+  constructor <;> funext f <;> cases anyOf <;> simp [groupFields, groupResult, linkBools, excludeFields]
+
+/-- **Linking:** `and` holds iff every condition holds, `or` iff some condition holds (non-empty group, no negation). -/
+theorem group_linking (cs : List FScope) (h : cs ≠ []) (f : Option Str) :
+    (groupFields false false cs f = true ↔ ∀ c ∈ cs, c f = true) ∧
+    (groupFields true false cs f = true ↔ ∃ c ∈ cs, c f = true) := by
+  cases cs with
+  | nil => exact absurd rfl h
+  | cons c cs => simp [groupFields, groupResult, linkBools]
+
+/-- **Items without field references:** the group evaluated on the item is the group evaluated on its field name. -/
+theorem group_items_no_ref (anyOf neg : Bool) (cs : List FScope) (k : Str) (vs : List PV) (h : refNames k vs = []) :
+    groupItems anyOf neg cs k vs = groupFields anyOf neg cs (fieldOf k) := by
+  simp [groupItems, groupFields, fieldScope, h, List.map_map, Function.comp_def]
+
+/-- **Renaming behind the gate of a single condition is the ungated renaming** (the earlier theorems speak about it);
+an item the gate rejects stays exactly as it is, in its place. -/
+theorem renameGated_single (sc : FScope) (m : Str → List Str) (doc : Doc) :
+    renameFieldsGated (fieldScope sc) (scopedMap sc m) doc = renameFields (scopedMap sc m) doc := by
+  obtain ⟨dets, conds, fields⟩ := doc
+  simp only [renameFieldsGated, renameFields]
+  congr 1
+  unfold mapDets
+  refine List.map_congr_left (fun d _ => ?_)
+  congr 1
+  exact mapDet_congr _ _ _ _ d.2 (fun kv _ => by simpa [renameItemGated] using renameItem_gate sc m kv) (fun _ _ => rfl)
+
+/-- **A gate that rejects every item of the rule** (e.g. a negated condition excluding no field of the rule) together
+with a mapping that leaves the fields list alone leaves the document unchanged. -/
+theorem renameGated_identity (gate : Scope) (m : Str → List Str) (doc : Doc)
+    (hd : ∀ d ∈ doc.dets, ∀ kv ∈ detItems d.2, gate kv.1 kv.2 = false)
+    (hf : ∀ f ∈ doc.fields, m f = [f]) :
+    renameFieldsGated gate m doc = doc := by
+  obtain ⟨dets, conds, fields⟩ := doc
+  simp only [renameFieldsGated]
+  have h1 : mapDets (renameDetGated gate m) dets = dets :=
+    mapDets_id _ dets (fun d hdm => by
+      unfold renameDetGated
+      exact mapDet_id _ _ d.2 (fun kv hkv => by simp [hd d hdm kv hkv]) (fun _ _ => rfl))
+  rw [h1, flatMap_singleton_id m fields hf]
+
+example : groupFields false true [includeFields ["CommandLine".toList]] (some "Image".toList) = true ∧
+    groupFields false true [includeFields ["CommandLine".toList]] (some "CommandLine".toList) = false ∧
+    groupItems true false [includeFields ["a".toList], includeFields ["b".toList]] "b|contains".toList [] = true := by decide
+
 /-! ## 3. Identity instances -/
 
 /-- **Empty mapping / mapping without a matching key / scope matching nothing**: a renaming that
